@@ -113,9 +113,13 @@ impl Fields {
     }
 
     pub(super) fn samples(&self) -> io::Result<Samples<'_>> {
-        self.sample_count().map(|sample_count| {
+        let samples = self.sample_count().map(|sample_count| {
             Samples::new(&self.samples_buf, sample_count, self.format_key_count())
-        })
+        })?;
+
+        samples.validate()?;
+
+        Ok(samples)
     }
 
     pub(crate) fn index(&mut self) -> io::Result<()> {
@@ -317,5 +321,33 @@ mod tests {
 
         // There is no reference allele.
         t(0, &[0x07, 0x17, b'A', 0x00], io::ErrorKind::InvalidData);
+    }
+
+    #[test]
+    fn test_samples_with_a_sample_count_greater_than_the_number_of_values() -> io::Result<()> {
+        let mut fields = Fields::default();
+
+        // n_sample = 2
+        fields.site_buf_mut()[bounds::SAMPLE_COUNT_RANGE].copy_from_slice(&[0x02, 0x00, 0x00]);
+        fields.site_buf_mut()[bounds::FORMAT_KEY_COUNT_INDEX] = 0x01; // n_fmt = 1
+
+        *fields.samples_buf_mut() = vec![
+            0x11, 0x01, // key = 1
+            0x11, // type = i8, len = 1
+            0x05, 0x08, // values = [5, 8]
+        ];
+
+        let samples = fields.samples()?;
+        assert_eq!(samples.iter().count(), 2);
+
+        // n_sample = 16777215
+        fields.site_buf_mut()[bounds::SAMPLE_COUNT_RANGE].fill(0xff);
+
+        assert!(matches!(
+            fields.samples(),
+            Err(e) if e.kind() == io::ErrorKind::UnexpectedEof
+        ));
+
+        Ok(())
     }
 }
